@@ -288,6 +288,34 @@ func runC15(h *hz.H) {
 	g = protowire.AppendTag(g, 4, protowire.EndGroupType)
 	recs = append(recs, g)
 	recs = append(recs, []byte{0x88, 0x80, 0x80, 0x00, 0x81, 0x80, 0x00}) // padded tag (field 1 varint) and padded value
+	// counts and depths around protowire's nesting limit (10000): many sibling groups at depth 2 are NOT nesting;
+	// chains of nested groups are (compared with protowire's verdict whatever it is)
+	many := func(n int) []byte {
+		b := protowire.AppendTag(nil, 4, protowire.StartGroupType)
+		for i := 0; i < n; i++ {
+			b = protowire.AppendTag(b, 5, protowire.StartGroupType)
+			b = protowire.AppendTag(b, 5, protowire.EndGroupType)
+		}
+		return protowire.AppendTag(b, 4, protowire.EndGroupType)
+	}
+	chain := func(n int) []byte {
+		var b []byte
+		for i := 0; i < n; i++ {
+			b = protowire.AppendTag(b, 6, protowire.StartGroupType)
+		}
+		for i := 0; i < n; i++ {
+			b = protowire.AppendTag(b, 6, protowire.EndGroupType)
+		}
+		return b
+	}
+	for _, n := range []int{9999, 10000, 10001, 10002, 25000} {
+		for _, r := range [][]byte{many(n), chain(n)} {
+			if _, wf := checkSkip(h, r); wf {
+				wellFormed.Add(1)
+			}
+			h.Eval(true, hz.HashBytes([]byte("skipbig"), r))
+		}
+	}
 	for _, r := range recs {
 		for cut := 0; cut <= len(r); cut++ {
 			if _, wf := checkSkip(h, r[:cut]); wf {
